@@ -33,7 +33,9 @@ FRONT_RULE = (
     "(each excerpt line is re-lexed by lexer.Colorize) plus lexer.Colorize on the whole input and on each of its lines; "
     "every stage under its own recover(). Watchdog: 2 s of CPU on one input "
     "(or 20 s wall) abandons it; it is retried alone in a fresh worker with 6 s CPU / 60 s wall and only a second expiry counts as "
-    "a timeout (site = deepest frame common to 8 stack samples); a dead worker's in-flight input is likewise retried alone. "
+    "a timeout (site = deepest frame common to 8 stack samples); a dead worker's in-flight input is likewise retried alone; inputs of "
+    "generator p have 0.5 s / 1.5 s of CPU and, in a run that has already seen 12 first-round expiries at one site, the remaining p "
+    "inputs are not run (counted as prefix_inputs_skipped_after_site_cap; such a run fails). "
     "Gating observable: no stage panics, no worker dies, no timeout. non-trivial = the input produced at least one diagnostic "
     "or was accepted by the parser; distinct by input bytes.")
 
@@ -132,6 +134,9 @@ def regex_part(ctx):
 def parse_observed(obs):
     """-> dict stage->result, plus '_whole' = (kind, stage, site, msg) for timeout/fatal lines and 'note'."""
     d = {}
+    if obs.startswith("skipped:site-cap:"):
+        d["_skipped"] = obs[len("skipped:site-cap:"):]
+        return d
     for kind in ("timeout-unretried", "timeout", "fatal"):
         if obs.startswith(kind + ":"):
             p = obs[len(kind) + 1:].split(":", 3)
@@ -157,6 +162,8 @@ def show_input(b):
 
 
 def outcome_class(d):
+    if "_skipped" in d:
+        return "skipped_after_site_cap"
     if "_whole" in d:
         return d["_whole"][0]
     if any(d.get(s, "").startswith("panic:") for s in STAGES):
@@ -186,6 +193,7 @@ def front_stream(ctx):
     fails = []      # (size, key, what, case, impl)
     checker_ran = 0
     regex_diag = 0
+    skipped = {}    # hang site -> p inputs not run after 12 first-round expiries there
 
     def bump(k):
         dist[k] = dist.get(k, 0) + 1
@@ -201,6 +209,9 @@ def front_stream(ctx):
         bump("gen:" + (gen.group(0) if gen else "?"))
         bump("outcome:" + outcome_class(d))
         case = show_input(b)
+        if "_skipped" in d:
+            skipped[d["_skipped"]] = skipped.get(d["_skipped"], 0) + 1
+            continue
         if "_whole" in d:
             kind, stage, site, msg = d["_whole"]
             if kind == "timeout-unretried":
@@ -222,6 +233,9 @@ def front_stream(ctx):
                 p = v.split(":", 3)
                 p += [""] * (4 - len(p))
                 key = "front:%s:panic:%s:%s" % (s, p[1], p[2])
+                if s == "render":     # the printer has one big function: keep different kinds of crash apart
+                    m = re.match(r"runtime error: ([a-z ]+?)( \[|:|$)", p[3])
+                    key += ":" + (m.group(1).replace(" ", "-") if m else "other")
                 fails.append((len(b), key, "%s: stage %s panics at %s:%s: %s" % (case[:200], s, p[1], p[2], p[3]), case, v))
         note = d.get("note", "")
         if note.startswith("first-round-died:"):
@@ -241,10 +255,15 @@ def front_stream(ctx):
         bump("FAIL " + key)
         if seen[key] <= 3:
             ctx.fail(key, what, stream=stream, case=case, impl=impl, oracle="no panic, no timeout")
+    for site, cnt in sorted(skipped.items()):
+        if not any(k.endswith(":timeout:" + site.split(":", 1)[1]) for k in seen):
+            ctx.broke("stream %s: %d prefix inputs were skipped after 12 first-round watchdog expiries at %s, but no expiry there "
+                      "was confirmed on retry" % (stream, cnt, site))
     pick = [i for i in ids if i[0] != "c"]
     samples = [{"input": show_input(bytes.fromhex(inputs[i]))[:300], "observed": obs[i][:300]} for i in ids[:1] + pick[:2] + pick[-2:]]
-    ctx.stream(stream, len(ids), len(distinct), FRONT_RULE, samples, dist,
-               checker_stage_ran=checker_ran, regex_stage_diagnostics=regex_diag, failing_keys=sorted(seen))
+    ctx.stream(stream, len(ids) - sum(skipped.values()), len(distinct), FRONT_RULE, samples, dist,
+               checker_stage_ran=checker_ran, regex_stage_diagnostics=regex_diag, failing_keys=sorted(seen),
+               prefix_inputs_skipped_after_site_cap=sum(skipped.values()))
 
 
 def run(ctx):
